@@ -187,7 +187,8 @@ def main(argv=None):
         bounds=dict(symbolic='trials in [tasks per input, 10^6]', enumerated=f'N, C in 1..{3 if a.tier == "quick" else 5}, '
                     'inputs in 1..N*C, all job indices 1..N'),
         stubs=['glob, os.makedirs/exists/remove, multiprocessing.Process/cpu_count, print inside panqec.cli'],
-        outside=['N or C beyond the bound', 'what run_file does with n_runs (C12)'])
+        outside=['N or C beyond the bound', 'what a launched task does with (input, result file, n_runs): that a run of n_runs >= 1 '
+                 'trials ends with its result file written is decided by C12 (`C12/completed-run-is-on-disk`)'])
 
 
 if __name__ == '__main__':
